@@ -47,3 +47,58 @@ def write_catalog_forecast(path, catalogs, encoding, header=False, frac="auto"):
                     w.writerow(r)
             elif i == n - 1 or encoding[i] == "placeholder":
                 w.writerow(["", "", "", "", "", str(i), ""])
+
+
+# ------------------------------------------------------------------ ZMAP (CSEP1 ascii): whitespace separated numeric columns
+def write_zmap(path, recs, ncols=13):
+    """recs: dicts with lon, lat, year, month, day, mag, depth, hour, minute, second (ints for the calendar fields).
+    columns: lon lat decimal-year month day mag depth hour minute second [h-err d-err m-err]"""
+    import calendar
+    with open(path, "w") as f:
+        for r in recs:
+            doy = sum(calendar.monthrange(r["year"], m)[1] for m in range(1, r["month"])) + r["day"] - 1
+            ndays = 366 if calendar.isleap(r["year"]) else 365
+            decyear = r["year"] + (doy + (r["hour"] + (r["minute"] + r["second"] / 60.0) / 60.0) / 24.0) / ndays
+            cols = ["%.4f" % r["lon"], "%.4f" % r["lat"], "%.10f" % decyear, "%d" % r["month"], "%d" % r["day"], "%.2f" % r["mag"],
+                    "%.2f" % r["depth"], "%d" % r["hour"], "%d" % r["minute"], "%d" % r["second"], "1.0", "2.0", "0.1"]
+            f.write(" ".join(cols[:ncols]) + "\n")
+
+
+# ------------------------------------------------------------------ JMA csv
+def write_jma(path, recs, header=True):
+    """recs: dicts with local datetime fields + offset minutes; 'timestamp;longitude;latitude;depth;magnitude'"""
+    with open(path, "w", newline="") as f:
+        if header:
+            f.write("timestamp;longitude;latitude;depth;magnitude\n")
+        for r in recs:
+            f.write("%s;%s;%s;%s;%s\n" % (r["stamp"], repr(r["lon"]), repr(r["lat"]), repr(r["depth"]), repr(r["mag"])))
+
+
+# ------------------------------------------------------------------ INGV HORUS (tab separated, one header line)
+def write_horus(path, recs):
+    with open(path, "w") as f:
+        f.write("Year\tMo\tDa\tHo\tMi\tSe\tLat\tLon\tDepth\tMw\tsigMw\tGeo-Ita\tGeo-CPTI15\t\n")
+        for r in recs:
+            vals = [r["year"], r["month"], r["day"], r["hour"], r["minute"], r["second"], r["lat"], r["lon"], r["depth"], r["mag"], 0.2]
+            f.write("\t".join("%20.10f" % v for v in vals) + "\t*\t*\t\n")
+
+
+# ------------------------------------------------------------------ NDK (five 80-column lines per event)
+def ndk_record(r):
+    l1 = "%-4s %04d/%02d/%02d %02d:%02d:%04.1f %6.2f %7.2f %5.1f %3.1f %3.1f %-24s" % (
+        "PDEW", r["year"], r["month"], r["day"], r["hour"], r["minute"], r["second"], r["lat"], r["lon"], r["depth"], 5.5, 5.8,
+        "GENERATED EVENT")
+    l2 = "%-16s B: 88  166  40 S: 96  189  50 M: 41   52 125 CMT: 1 TRIHD:  1.8" % r["name"]
+    l3 = "CENTROID: %8.1f%4.1f%7.2f%5.2f%8.2f%5.2f%6.1f%5.1f %-4s %s" % (5.3, 0.1, r["lat"], 0.01, r["lon"], 0.01, r["depth"], 0.4, "FREE", "S-20060726112355")
+    l4 = "%2d" % r["exp"] + "".join(" %6.3f %5.3f" % (v, 0.05) for v in (4.18, -1.7, -2.48, -1.05, -2.41, -2.28))
+    l5 = "V10" + "".join(" %7.3f %2d %3d" % a for a in ((4.975, 73, 100), (0.120, 8, 216), (-5.095, 15, 308))) + " " + "%7.3f" % r["moment"] + \
+         " %3d %2d %4d %3d %2d %4d" % (49, 30, 106, 211, 61, 81)
+    return [l1, l2, l3, l4, l5]
+
+
+def write_ndk(path, recs, trailing_newline=True):
+    lines = []
+    for r in recs:
+        lines += ndk_record(r)
+    with open(path, "w") as f:
+        f.write("\n".join(lines) + ("\n" if trailing_newline else ""))
